@@ -166,9 +166,15 @@ macro_rules! generate_method_for_document_type {
       K: $k,
       I: KeyIdStorage,
     {
-      let JwkGenOutput { key_id, jwk } = $f(storage.key_storage(), key_type, alg)
+      let alg_name: String = alg.to_string();
+      let JwkGenOutput { key_id, mut jwk } = $f(storage.key_storage(), key_type, alg)
         .await
         .map_err(Error::KeyStorageError)?;
+      // `alg` is an optional member of a JWK and a key storage may leave it out. Signing with the method requires it
+      // (`create_jws` takes the algorithm from the method's JWK): record the algorithm the key was generated for.
+      if jwk.alg().is_none() {
+        jwk.set_alg(alg_name);
+      }
 
       // Produce a new verification method containing the generated JWK. If this operation fails we handle the error
       // by attempting to revert key generation before returning an error.
